@@ -1,24 +1,26 @@
-//! Minimal run-time for extra parent threads (and, later, the rendezvous
-//! channel used by the extracted thread-based communicator).
+//! Minimal run-time for extra parent threads, and the scheduler-aware
+//! rendezvous channel + thread spawn used by the extracted thread-based
+//! communicator (the only stubbed library-side dependency).
 
 use crate::kernel::*;
 use crate::sim::*;
 
+/// Scheduling state of one channel (the messages themselves live in the typed channel object).
 #[derive(Default, Debug)]
 pub struct ChanState {
-    pub senders_waiting: usize,
-    pub receivers_waiting: usize,
-    pub queue: usize,
-    pub closed_tx: bool,
+    /// tickets of offers made so far / taken so far (FIFO)
+    pub offered: u64,
+    pub taken: u64,
+    pub senders: usize,
     pub closed_rx: bool,
 }
 
 impl ChanState {
     pub fn recv_ready(&self) -> bool {
-        self.senders_waiting > 0 || self.queue > 0 || self.closed_tx
+        self.offered > self.taken || self.senders == 0
     }
-    pub fn send_ready(&self) -> bool {
-        self.receivers_waiting > 0 || self.closed_rx
+    pub fn send_ready(&self, ticket: u64) -> bool {
+        self.taken > ticket || self.closed_rx
     }
 }
 
@@ -51,7 +53,11 @@ pub fn spawn<F: FnOnce() + Send + 'static>(f: F) -> (u8, std::thread::JoinHandle
                 s.threads[u as usize].state = TState::Running;
                 s.k.ev(Ent::Par(u), Call::ThreadStart, [0, 0, 0], 0);
             }
-            f();
+            let r = std::panic::catch_unwind(std::panic::AssertUnwindSafe(f));
+            if r.is_err() {
+                let msg = crate::api::LAST_PANIC.with(|p| p.borrow_mut().take()).unwrap_or_default();
+                sim().violate("panic", "panic/in=helper_thread".into(), format!("a helper thread panicked: {}", msg));
+            }
         })
         .expect("thread spawn");
     (u, h)
@@ -80,6 +86,212 @@ pub fn join(u: u8) {
                 return;
             }
             Woke::TimedOut => {}
+        }
+    }
+}
+
+/// Let every other parent thread run until it is done or blocked for good
+/// (harness-level; used to reach a quiescent point).
+pub fn settle() {
+    let me = cur_thread().expect("settle from unregistered thread");
+    for _ in 0..10_000 {
+        let s = sim();
+        if s.poisoned.is_some() {
+            return;
+        }
+        let others: Vec<u8> = (0..s.threads.len() as u8).filter(|u| *u != me && s.thread_enabled_pub(*u as usize)).collect();
+        if others.is_empty() {
+            return;
+        }
+        let u = others[s.ch.choose(others.len())];
+        s.threads[me as usize].state = TState::Runnable;
+        switch_pub(me, u);
+    }
+}
+
+pub mod thread {
+    //! `std::thread::spawn` for library code running under the simulator.
+    pub struct JoinHandle;
+
+    pub fn spawn<F: FnOnce() + Send + 'static>(f: F) -> JoinHandle {
+        let (_u, h) = super::spawn(f);
+        crate::runner::stash_handles(vec![h]);
+        super::sim().k.probe("helper_thread_spawned");
+        JoinHandle
+    }
+}
+
+pub mod mpsc {
+    //! `std::sync::mpsc::sync_channel(0)` (rendezvous) on the virtual clock.
+    use super::super::sim::*;
+    use crate::kernel::{Call, Ent};
+    use std::collections::VecDeque;
+    use std::sync::{Arc, Mutex};
+    use std::time::Duration;
+
+    struct Inner<T> {
+        id: usize,
+        q: Mutex<VecDeque<(u64, T)>>,
+    }
+
+    pub struct SyncSender<T> {
+        inner: Arc<Inner<T>>,
+    }
+
+    pub struct Receiver<T> {
+        inner: Arc<Inner<T>>,
+    }
+
+    #[derive(Debug)]
+    pub struct SendError<T>(pub T);
+
+    #[derive(Debug, PartialEq, Eq)]
+    pub struct RecvError;
+
+    #[derive(Debug, PartialEq, Eq)]
+    pub enum RecvTimeoutError {
+        Timeout,
+        Disconnected,
+    }
+
+    impl<T> std::fmt::Debug for Receiver<T> {
+        fn fmt(&self, f: &mut std::fmt::Formatter<'_>) -> std::fmt::Result {
+            write!(f, "Receiver({})", self.inner.id)
+        }
+    }
+
+    impl<T> std::fmt::Debug for SyncSender<T> {
+        fn fmt(&self, f: &mut std::fmt::Formatter<'_>) -> std::fmt::Result {
+            write!(f, "SyncSender({})", self.inner.id)
+        }
+    }
+
+    pub fn sync_channel<T>(bound: usize) -> (SyncSender<T>, Receiver<T>) {
+        assert_eq!(bound, 0, "only rendezvous channels are modelled");
+        let s = sim();
+        s.chans.push(super::ChanState { senders: 1, ..Default::default() });
+        let id = s.chans.len() - 1;
+        let inner = Arc::new(Inner { id, q: Mutex::new(VecDeque::new()) });
+        (SyncSender { inner: inner.clone() }, Receiver { inner })
+    }
+
+    fn me() -> u8 {
+        cur_thread().expect("channel used by an unregistered thread")
+    }
+
+    impl<T> Clone for SyncSender<T> {
+        fn clone(&self) -> Self {
+            sim().chans[self.inner.id].senders += 1;
+            SyncSender { inner: self.inner.clone() }
+        }
+    }
+
+    impl<T> Drop for SyncSender<T> {
+        fn drop(&mut self) {
+            if sim_installed() {
+                let c = &mut sim().chans[self.inner.id];
+                c.senders = c.senders.saturating_sub(1);
+                sim().k.touch();
+            }
+        }
+    }
+
+    impl<T> Drop for Receiver<T> {
+        fn drop(&mut self) {
+            if sim_installed() {
+                sim().chans[self.inner.id].closed_rx = true;
+                sim().k.touch();
+            }
+        }
+    }
+
+    impl<T> SyncSender<T> {
+        /// Blocks until the receiver has taken the message (rendezvous).
+        pub fn send(&self, msg: T) -> Result<(), SendError<T>> {
+            let t = me();
+            let id = self.inner.id;
+            par_enter(t, Call::Other);
+            let s = sim();
+            if s.poisoned.is_some() || s.chans[id].closed_rx {
+                return Err(SendError(msg));
+            }
+            let ticket = s.chans[id].offered;
+            s.chans[id].offered += 1;
+            self.inner.q.lock().unwrap().push_back((ticket, msg));
+            s.k.touch();
+            s.k.ev(Ent::Par(t), Call::Other, [1, id as i64, ticket as i64], 0);
+            loop {
+                let s = sim();
+                if s.chans[id].taken > ticket {
+                    return Ok(());
+                }
+                if s.chans[id].closed_rx || s.poisoned.is_some() {
+                    // take the offer back
+                    let mut q = self.inner.q.lock().unwrap();
+                    if let Some(pos) = q.iter().position(|(tk, _)| *tk == ticket) {
+                        let (_, m) = q.remove(pos).unwrap();
+                        // tickets behind this one stay ordered; mark it as consumed
+                        drop(q);
+                        sim().chans[id].taken = sim().chans[id].taken.max(ticket + 1);
+                        return Err(SendError(m));
+                    }
+                    return Ok(());
+                }
+                sched_block(t, Wait::ChanSend(id, ticket), None);
+            }
+        }
+    }
+
+    impl<T> Receiver<T> {
+        fn take(&self) -> Option<T> {
+            let mut q = self.inner.q.lock().unwrap();
+            let r = q.pop_front();
+            drop(q);
+            r.map(|(ticket, m)| {
+                let s = sim();
+                s.chans[self.inner.id].taken = ticket + 1;
+                s.k.touch();
+                m
+            })
+        }
+
+        pub fn recv(&self) -> Result<T, RecvError> {
+            match self.recv_deadline(None) {
+                Ok(m) => Ok(m),
+                Err(_) => Err(RecvError),
+            }
+        }
+
+        pub fn recv_timeout(&self, d: Duration) -> Result<T, RecvTimeoutError> {
+            let now = sim().k.now;
+            self.recv_deadline(Some(now.saturating_add(d.as_nanos().min(u64::MAX as u128) as u64)))
+        }
+
+        fn recv_deadline(&self, deadline: Option<u64>) -> Result<T, RecvTimeoutError> {
+            let t = me();
+            let id = self.inner.id;
+            par_enter(t, Call::Other);
+            loop {
+                let s = sim();
+                if s.poisoned.is_some() {
+                    return Err(RecvTimeoutError::Disconnected);
+                }
+                if let Some(m) = self.take() {
+                    sim().k.ev(Ent::Par(t), Call::Other, [2, id as i64, 0], 1);
+                    return Ok(m);
+                }
+                if s.chans[id].senders == 0 {
+                    s.k.ev(Ent::Par(t), Call::Other, [2, id as i64, 0], -1);
+                    return Err(RecvTimeoutError::Disconnected);
+                }
+                if let Some(d) = deadline {
+                    if s.k.now >= d {
+                        s.k.ev(Ent::Par(t), Call::Other, [2, id as i64, 0], 0);
+                        return Err(RecvTimeoutError::Timeout);
+                    }
+                }
+                sched_block(t, Wait::ChanRecv(id), deadline);
+            }
         }
     }
 }
